@@ -66,7 +66,7 @@ func textOfLen(class string, n int) string {
 func C17(tier string) {
 	r := ev.Begin("C17", tier, "exploration")
 	r.NotExhaustive()
-	r.Rule("profiles from a layout grammar: tag counts 0..64 with the description at every table position (<= 8 tags) or first/middle/last; every order of the data blocks for <= 5 tags, every 0-3 byte padding pattern for <= 4 tags, blocks shared by 2-3 tags; v2 descriptions of every length 0..300 and 1999/2000 with printable, DEL and high-bit bytes; v4 mluc with 1..6 records in every record order (<= 5), 40 records, string placements {table order, reverse, gapped, shared, overlapping}, record sizes 12/16, 'en' present at every position / absent / twice with different countries, strings of length 0..40 and 2000 over ASCII, BMP and surrogate-pair alphabets; distinct = distinct profile byte strings; plus every sequence of up to 4 (thorough 5) operations {Read(P1..P5), Description(any profile object read earlier)}, each description compared with that of its own profile (profiles of equal size and equal ID, a tag that does not parse)")
+	r.Rule("profiles from a layout grammar: tag counts 0..64 with the description at every table position (<= 8 tags) or first/middle/last; every order of the data blocks for <= 5 tags, every 0-3 byte padding pattern for <= 4 tags, blocks shared by 2-3 tags; v2 descriptions of every length 0..300 and 1999/2000 with printable, DEL and high-bit bytes; v4 mluc with 1..6 records in every record order (<= 5), 40..600 records, tables of 65..5000 tags, string placements {table order, reverse, gapped, shared, overlapping}, record sizes 12/16, 'en' present at every position / absent / twice with different countries, strings of length 0..40 and 2000 over ASCII, BMP and surrogate-pair alphabets; distinct = distinct profile byte strings; plus every sequence of up to 4 (thorough 5) operations {Read(P1..P5), Description(any profile object read earlier)}, each description compared with that of its own profile (profiles of equal size and equal ID, a tag that does not parse)")
 	r.Assume("expected description: ASCII bytes before the NUL (v2); for mluc any string of an 'en' record when one exists, otherwise any record's string, each decoded by unicode/utf16 from the record's declared offset and length")
 	seen := map[string]bool{}
 
@@ -165,6 +165,25 @@ func C17(tier string) {
 		}
 	}
 
+	// 1b. larger tables: counts around and beyond typical small-integer limits
+	for _, n := range []int{65, 100, 127, 128, 129, 200, 255, 256, 257, 341, 1000, 1365, 5000} {
+		for _, pos := range []int{0, n / 3, n - 1} {
+			name := fmt.Sprintf("Large table %d/%d", pos, n)
+			for ver, blk := range descBlocks(name) {
+				l := gen.ICCLayout{Major: map[string]byte{"v2": 2, "v4": 4}[ver]}
+				l.Blocks = [][]byte{fillerBlock(1), blk, fillerBlock(7)}
+				for i := 0; i < n; i++ {
+					if i == pos {
+						l.Tags = append(l.Tags, gen.ICCTag{Sig: gen.Sig("desc"), Block: 1})
+					} else {
+						l.Tags = append(l.Tags, gen.ICCTag{Sig: uint32(0x41000000 + i), Block: (i % 2) * 2})
+					}
+				}
+				try("layout/large-table", l.Build(), []string{name}, fmt.Sprintf("%d tags (fillers share two blocks), %s desc at table position %d", n, ver, pos))
+			}
+		}
+	}
+
 	// 2. block orders and padding
 	for k := 1; k <= 5; k++ {
 		orders := perms(k)
@@ -233,7 +252,7 @@ func C17(tier string) {
 	for n := 0; n <= 300; n++ {
 		lens = append(lens, n)
 	}
-	lens = append(lens, 1999, 2000)
+	lens = append(lens, 1999, 2000, 4095, 4096, 4097, 65535, 65536, 65537, 100003)
 	for _, n := range lens {
 		for variant := 0; variant < 3; variant++ {
 			a := make([]byte, n)
@@ -321,22 +340,24 @@ func C17(tier string) {
 			try("mluc/two-en", mlucProfile(tag), expectFor(recs, texts), fmt.Sprintf("mluc with enUS and enGB %v, strings %s", langs(recs), placeName[pi]))
 		}
 	}
-	// 40 records
-	for _, enAt := range []int{-1, 0, 17, 39} {
-		var recs []gen.MlucRecord
-		for i := 0; i < 40; i++ {
-			l := string([]byte{byte('a' + i/26), byte('a' + i%26)})
-			if l == "en" {
-				l = "zz"
+	// 40 and more records
+	for _, nrec := range []int{40, 41, 100, 255, 256, 257, 600} {
+		for _, enAt := range []int{-1, 0, 17, nrec - 1} {
+			var recs []gen.MlucRecord
+			for i := 0; i < nrec; i++ {
+				l := string([]byte{byte('a' + (i/26)%26), byte('a' + i%26)})
+				if l == "en" {
+					l = "zz"
+				}
+				recs = append(recs, gen.MlucRecord{Lang: l, Country: string([]byte{byte('A' + (i/676)%26), 'X'}), Text: fmt.Sprintf("Name %02d ü", i)})
 			}
-			recs = append(recs, gen.MlucRecord{Lang: l, Country: "XX", Text: fmt.Sprintf("Name %02d ü", i)})
-		}
-		if enAt >= 0 {
-			recs[enAt] = gen.MlucRecord{Lang: "en", Country: "AU", Text: "Forty records"}
-		}
-		for pi, pl := range places {
-			tag, texts := gen.Mluc(recs, 12, pl)
-			try("mluc/40", mlucProfile(tag), expectFor(recs, texts), fmt.Sprintf("mluc 40 records, en at %d, strings %s", enAt, placeName[pi]))
+			if enAt >= 0 {
+				recs[enAt] = gen.MlucRecord{Lang: "en", Country: "AU", Text: "Forty records"}
+			}
+			for pi, pl := range places {
+				tag, texts := gen.Mluc(recs, 12, pl)
+				try("mluc/40", mlucProfile(tag), expectFor(recs, texts), fmt.Sprintf("mluc %d records, en at %d, strings %s", nrec, enAt, placeName[pi]))
+			}
 		}
 	}
 	// string lengths and alphabets
@@ -344,7 +365,7 @@ func C17(tier string) {
 	for n := 0; n <= 40; n++ {
 		lengths = append(lengths, n)
 	}
-	lengths = append(lengths, 2000)
+	lengths = append(lengths, 127, 128, 255, 256, 257, 2000, 32767, 32768, 50021)
 	for _, class := range []string{"ascii", "bmp", "surrogates"} {
 		for _, n := range lengths {
 			txt := textOfLen(class, n)
